@@ -111,6 +111,18 @@ theorem C04_wnd_truthful (k : Kcp) (op : Op) (hp : stepPanic k op = false) :
   obtain ⟨l, e, hw⟩ := step_allWnd k op hp o hm
   exact ⟨l, e, fun w hwl => ⟨hw w hwl, by rw [hw w hwl]; exact wndUnused_le _⟩⟩
 
+/-- read from the receiving end: walk any emitted datagram the way the parse loop of `Input` does
+(`wndFields`: 24-byte header, `wnd` at offset 6, skip `len` payload bytes, same fuel) — every `wnd`
+field found is `wnd_unused()` of the state the operation left behind, at most the free space of the
+delivery queue.  (`o.length < 2^32`: the length field cannot wrap; every real datagram is below 64 KiB.) -/
+theorem C04_wnd_truthful_parsed (k : Kcp) (op : Op) (hp : stepPanic k op = false) :
+    ∀ o ∈ stepOuts k op, o.length < 2^32 →
+      ∀ x ∈ wndFields (o.length / IKCP_OVERHEAD + 1) o,
+        x = wndUnused (step k op) ∧ x.toNat ≤ (step k op).rcv_wnd.toNat - (step k op).rcv_queue.length := by
+  intro o hm hlen x hx
+  have := allWnd_fields (step_allWnd k op hp o hm) hlen x hx
+  exact ⟨this, by rw [this]; exact wndUnused_le _⟩
+
 /-- the same for `flush` alone, against the state it started from (the value is computed once, at the
 start, and stamped on every header: ACK/WASK/WINS through the scratch header, PUSH by `xmitOne`) -/
 theorem C04_wnd_truthful_flush (k : Kcp) (full : Bool) (now : U32) (hp : (flush k full now).panic = false) :
@@ -241,6 +253,12 @@ example :
 example :
     let k := run (start 7 0xFFFFFFF0#32 0xFFFFFFFE#32) (demoOps.take 5)
     stepPanic k (.flush true 100) = false ∧ (stepOuts k (.flush true 100)).map List.length = [24 + 3 + 24 + 1] := by
+  decide
+
+/-- … and a receiver parses two `wnd` fields out of that datagram, both equal to 2 (= `rcv_wnd`, queue empty) -/
+example :
+    let k := run (start 7 0xFFFFFFF0#32 0xFFFFFFFE#32) (demoOps.take 5)
+    (stepOuts k (.flush true 100)).map (fun o => wndFields (o.length / IKCP_OVERHEAD + 1) o) = [[2, 2]] := by
   decide
 
 /-- `C04_backpressure` is not vacuous: after 6 operations the window (2) is full with one segment queued -/
